@@ -122,6 +122,21 @@ CHECKS = {
              "reachable in the design). Asset lists without duplicates; dates 1..5.",
         technique="TLC model checking of the coordinator + scenario replay on the real Sync.Run + TLC trace validation + race detector",
         engine="tlc"),
+    "C13": dict(
+        category="model_checking",
+        text="spec/Backtest.tla: Begin; W workers each Take -> GetSince -> AssetBegin -> Write x strategies -> AssetEnd; End after the "
+             "wait group; report state mutated in separate steps (DataRace reachable when unlocked); the ranking comparator on a "
+             "fixed-point lattice. TLC checks ExactlyOnce, ProtocolOrder, SameForAnyW over all interleavings (W 1..3, assets the "
+             "repository lacks), Termination under fairness, WeakOrder/RankingOK of the comparator, and emits arrangements a "
+             "truncating comparator leaves unranked. Backtest.Run runs with a recording Report (call log validated by TLC, "
+             "BacktestTrace.tla; outcomes compared with direct evaluation on the look-back window), DataReport and HTMLReport (rows "
+             "of <asset>.html / index.html parsed: one row per pair, ranking order, best entry) for W in {1,2,4,16}, and under the Go "
+             "race detector.",
+        design_ref="DESIGN.md 2.6, 5 (C13)",
+        note="Trusted: TLC, the recording report, HTML row parsing, the Go race detector. Stub strategies (buy on the first snapshot, "
+             "sell on a scripted one) stand for arbitrary strategies; per-strategy HTML pages are covered under C14.",
+        technique="TLC model checking of the coordinator + scenario replay on the real Backtest.Run + TLC trace validation + race detector",
+        engine="tlc"),
     "C14": dict(
         category="model_checking",
         text="Report() of every strategy (base, compound, decorated) x configurations x n beyond the warm-up: the network recorded "
